@@ -263,8 +263,8 @@ Section Interp.
 
   (** rule [full_expression] = ![_] {0} / _ expression _, plus the end-of-input check of the
       generated entry point *)
-  Definition parse_full (s : I) : pres aexpr I :=
-    if lx_empty lx s then PMatch (ELit 0) s
+  Definition parse_full (blank0 : bool) (s : I) : pres aexpr I :=
+    if lx_empty lx (if blank0 then lx_ws lx s else s) then PMatch (ELit 0) s
     else
       let s1 := lx_ws lx s in
       match parse (S (lx_size lx s1)) O s1 with
@@ -272,8 +272,8 @@ Section Interp.
       | x => x
       end.
 
-  Definition parse_opt (s : I) : option aexpr :=
-    match parse_full s with PMatch e _ => Some e | _ => None end.
+  Definition parse_opt (blank0 : bool) (s : I) : option aexpr :=
+    match parse_full blank0 s with PMatch e _ => Some e | _ => None end.
 End Interp.
 
 (** ** the character-level primitives of the real grammar *)
@@ -303,11 +303,14 @@ Section CharLexer.
       match rest with
       | c :: r1 =>
         if N.eqb c 91 then                                   (* "[" *)
-          match expr r1 with
-          | PMatch ie (c2 :: r2) =>
-            if N.eqb c2 93 then PMatch (x, Some ie) r2       (* "]" *)
-            else PMatch (x, None) rest
-          | PMatch _ [] | PFail => PMatch (x, None) rest
+          match expr (if subscript_ws cfg then skip_ws r1 else r1) with
+          | PMatch ie r2' =>
+            match (if subscript_ws cfg then skip_ws r2' else r2') with
+            | c2 :: r2 => if N.eqb c2 93 then PMatch (x, Some ie) r2       (* "]" *)
+                          else PMatch (x, None) rest
+            | [] => PMatch (x, None) rest
+            end
+          | PFail => PMatch (x, None) rest
           | PFuel => PFuel
           | PBad => PBad
           end
